@@ -328,6 +328,13 @@ def _exponent_update(fn):
             return out
         if isinstance(st, ast.AugAssign) and isinstance(st.target, ast.Subscript) and type(st.op) in OPSYM:
             return {"iter": norm(lp.iter), "target": norm(st.target), "scale_op": OPSYM[type(st.op)], "scale_arg": norm(st.value)}
+    # comprehension form: D = {k: v op X for k, v in S.items()}
+    for a in [n for n in fn.body if isinstance(n, ast.Assign) and isinstance(n.value, ast.DictComp) and len(n.targets) == 1 and isinstance(n.targets[0], ast.Name)]:
+        dc = a.value
+        if len(dc.generators) == 1 and not dc.generators[0].ifs and isinstance(dc.generators[0].target, ast.Tuple) and len(dc.generators[0].target.elts) == 2:
+            k, v = (norm(e) for e in dc.generators[0].target.elts)
+            if norm(dc.key) == k and isinstance(dc.value, ast.BinOp) and norm(dc.value.left) == v and type(dc.value.op) in OPSYM:
+                return {"iter": norm(dc.generators[0].iter), "target": f"{a.targets[0].id}[{k}]", "scale_op": OPSYM[type(dc.value.op)], "scale_arg": norm(dc.value.right)}
     return None
 
 
